@@ -148,9 +148,6 @@ func (m *Mon) stepC02(sc *StepCtx, si stepInfo) {
 		if post.ActiveID[rid] {
 			m.fail(sc, "C02", "R2-good-response", "still-pending", "request still pending after accepted response")
 		}
-		if _, ok := post.Responses[rid]; !ok {
-			m.fail(sc, "C02", "R2-good-response", "no-record", "no response record after accepted response")
-		}
 	case si.modSvcCall != nil:
 		cons := hexs(si.modSvcCall.Consumer)
 		dCons := delta(pre, post, cons)
@@ -1085,18 +1082,9 @@ func (m *Mon) stepC12(sc *StepCtx, si stepInfo) {
 		if bi.Closed {
 			m.fail(sc, "C12", "callback-per-batch", "after-close", "response callback for context %.16s batch %d after its expiry block ended", cb.CtxID, cb.SeenCounter)
 		}
-		// timing
-		timely := false
-		if sc.IsBlock() && pre.Height == bi.ExpH {
-			timely = true
-		}
-		if si.respond != nil && hexs(si.respReq.RequestContextId) == cb.CtxID && si.respReq.RequestContextBatchCounter == cb.SeenCounter {
-			a := pre.Contexts[cb.CtxID]
-			timely = a.BatchResponseCount+1 == a.BatchRequestCount
-		}
-		if !timely {
-			m.fail(sc, "C12", "callback-timing", cls, "response callback for context %.16s batch %d fired in %s (neither the last outstanding response nor the expiry block)", cb.CtxID, cb.SeenCounter, sc.Step.Desc)
-		}
+		bi.CbOutputs = got
+		bi.CbErr = cb.Err
+		bi.HasCb = true
 	}
 	// pay-failure pause of a module context => exactly one state callback
 	if sc.IsBlock() {
@@ -1130,6 +1118,20 @@ func (m *Mon) stepC12(sc *StepCtx, si stepInfo) {
 				m.hit("C12", "callback-per-batch", fmt.Sprintf("issued%d/thr%d", minInt(bi.Issued, 4), bi.Threshold))
 				if bi.Callbacks != 1 {
 					m.fail(sc, "C12", "callback-per-batch", fmt.Sprintf("n%d", bi.Callbacks), "context %.16s batch %d (issued %d requests at %d, expiry %d): %d response callbacks by the end of its expiry block", id, bi.Counter, bi.Issued, bi.StartH, bi.ExpH, bi.Callbacks)
+				}
+				// the one callback must have carried the outputs of ALL the batch's responses
+				if bi.HasCb {
+					var final []string
+					for rid, resp := range pre.Responses {
+						if c, n, _, _, ok := reqParts(rid); ok && c == id && n == bi.Counter && len(resp.Output) > 0 {
+							final = append(final, resp.Output)
+						}
+					}
+					sort.Strings(final)
+					m.hit("C12", "callback-final-outputs", fmt.Sprintf("outs%d/thr%d", minInt(len(final), 4), bi.Threshold))
+					if !sameStrings(final, bi.CbOutputs) || bi.CbErr != (len(final) < int(bi.Threshold)) {
+						m.fail(sc, "C12", "callback-final-outputs", fmt.Sprintf("got%d-final%d", len(bi.CbOutputs), len(final)), "context %.16s batch %d: the response callback carried %d outputs (error=%v) but the batch ended with %d non-empty outputs (threshold %d)", id, bi.Counter, len(bi.CbOutputs), bi.CbErr, len(final), bi.Threshold)
+					}
 				}
 			}
 		}
